@@ -121,7 +121,9 @@ class FortranRegularExpressions:
     FREE_CONT: Pattern = compile(r"([ ]*&)")
     FREE_DOC: Pattern = compile(r"[ ]*!([<>!])")
     FREE_OPENMP: Pattern = compile(r"[ ]*!\$OMP", I)
-    FREE_FORMAT_TEST: Pattern = compile(r"[ ]{1,4}[a-z]", I)
+    # Statement text in columns 1-5: indented, or starting in column 1 with a
+    # letter that cannot flag a fixed form comment line (C, D)
+    FREE_FORMAT_TEST: Pattern = compile(r"[ ]{1,4}[a-z]|[abe-z]", I)
     # Preprocessor matching rules
     DEFINED: Pattern = compile(r"defined[ ]*\(?[ ]*([a-z_]\w*)[ ]*\)?", I)
     PP_REGEX: Pattern = compile(r"[ ]*#[ ]*(if |ifdef|ifndef|else|elif|endif)", I)
